@@ -1,6 +1,7 @@
 ------------------------------- MODULE MC_Fx -------------------------------
 (* Every combination of a rates-folder configuration and a currency assignment to the six   *)
-(* money fields of a three-line ledger (BUY end of January, DIVIDEND 1 February, SELL either *)
+(* money fields of a three-line ledger (BUY end of January, DIVIDEND / CAPRETURN / ACCUMULATION *)
+(* on 1 February, SELL either                                                                 *)
 (* 29 February or in a month the bundled rates do not cover).  One FX line per behaviour.   *)
 EXTENDS Fx, TLC, Json
 
@@ -37,12 +38,14 @@ FolderConfigs ==
     <<File(1, M1, M1, 10, "xml", Pos2("USD")), File(2, M2, M1, 20, "xml", Pos2("EUR"))>> }
 
 SellMonths == {M2, M3}
-FieldSeq(cs, sm) ==
+\* the middle line is a DIVIDEND (total, tax), a CAPRETURN (total, fees) or an ACCUMULATION (total, tax)
+EvKinds == {"div", "cr", "ac"}
+FieldSeq(cs, sm, ek) ==
   << [cur |-> cs[1], ym |-> M1, what |-> "buy_price"], [cur |-> cs[2], ym |-> M1, what |-> "buy_fees"],
-     [cur |-> cs[3], ym |-> M2, what |-> "div_total"], [cur |-> cs[4], ym |-> M2, what |-> "div_tax"],
+     [cur |-> cs[3], ym |-> M2, what |-> ek \o "_total"], [cur |-> cs[4], ym |-> M2, what |-> ek \o (IF ek = "cr" THEN "_fees" ELSE "_tax")],
      [cur |-> cs[5], ym |-> sm, what |-> "sell_price"], [cur |-> cs[6], ym |-> sm, what |-> "sell_fees"] >>
 
-MCInit == \E fs \in FolderConfigs, cs \in [1..6 -> Curs], sm \in SellMonths : FxInit(fs, FieldSeq(cs, sm))
+MCInit == \E fs \in FolderConfigs, cs \in [1..6 -> Curs], sm \in SellMonths, ek \in EvKinds : FxInit(fs, FieldSeq(cs, sm, ek))
 MCSpec == MCInit /\ [][FxNext]_fxvars
 
 Emit ==
